@@ -47,7 +47,7 @@ def known_sig(t, l, clause):
         out['existing_start_redelivered'] = any(st['ev']['kind'] == 'msg' and st['ev']['what'] == 'start_task' and st['ev'].get('dup') and not st['ev'].get('fr', True)
                                                 for st in t['steps'][:l])
     # KF-C10-5: a start_task(first_run=False) sent by resume_workflow for an IDLE task was delivered (the task may start twice)
-    if ck in ('AttemptBound', 'StopAtFirstSuccess', 'RetryStopsWhenTold', 'FinalIffLast', 'DelayRespected'):
+    if ck in ('AttemptBound', 'StopAtFirstSuccess', 'RetryStopsWhenTold', 'RetryExhausted', 'FinalIffLast', 'DelayRespected', 'WaitBeforeRespected', 'WaitAfterRespected'):
         out['resume_sent_start_delivered'] = (not any(st['ev']['kind'] == 'op' and st['ev']['what'] == 'rerun' for st in t['steps'][:l])) and any(
             st['ev']['kind'] == 'msg' and st['ev']['what'] == 'start_task' and not st['ev'].get('fr', True) and not st['ev'].get('dup')
             for st in t['steps'][:l])
